@@ -9,6 +9,7 @@ import (
 	"math"
 	"reflect"
 	"strings"
+	"sync/atomic"
 	"unicode/utf8"
 
 	"github.com/go-text/typesetting/font"
@@ -304,6 +305,17 @@ func diffIndex(a, b MIndex) string {
 		return fmt.Sprintf("%d vs %d entries (%q vs %q)", len(a), len(b), paths(a), paths(b))
 	}
 	return ""
+}
+
+// sampleQuota spreads the few evidence samples over the parts.
+var sampleQuota = map[string]*atomic.Int32{"a": {}, "b": {}, "c": {}, "d": {}}
+
+func wantSample(part string, max int32) bool {
+	q := sampleQuota[part]
+	if q.Load() >= max {
+		return false
+	}
+	return q.Add(1) <= max
 }
 
 func errStr(err error) string {
